@@ -19,7 +19,7 @@ RULE = ("run = pool of 2-7 named games (paper/example files, generator boards, r
         "depth; non-trivial = a batch with >=2 games of which one prunes something, or a failing game adjacent to a solvable one; "
         "distinct = hash of (batch shapes, game hashes, fault kinds fired)")
 
-NAMES = ["g", "game_a", "game_b", "x1", "fig_5_5", "a", "b2", "robot_47", "test", "n0", "big_reward", "z_9", "g_", "_", "0", "a_no", "x"*3 + "_" + "9"*40, "no_prune"]
+NAMES = ["g", "game_a", "game_b", "x1", "fig_5_5", "a", "b2", "robot_47", "test", "n0", "big_reward", "z_9", "g_", "_", "0", "a_no", "x"*3 + "_" + "9"*40, "no_prune", "x_no_prune_v2", "_no_prune_", "dise\u00f1o"]
 RESULT_KEYS = ("final_strategies", "reachability_strategies", "rewards", "probabilities",
                "n_iterations_reach", "n_iterations_rew", "prob_min_rew", "rew_min_reach")
 
@@ -38,7 +38,18 @@ def fixed_specs(tier, ctx):
              "ops": [{"op": "batch", "games": [0, 1]}]}]
 
 
+def _gen_marathon(rng):
+    pool = []
+    for i in range(4):
+        g = pools.tiny_game(rng) if i < 2 else (pools.nosol_game(rng) if i == 2 else pools.stopping_game(rng, 4, 6))
+        pool.append({"name": "m%d" % i, "desc": enc(g), "tag": "marathon"})
+    opl = [{"op": "batch", "games": rng.sample(range(4), rng.randint(1, 3))} for _ in range(rng.randint(60, 150))]
+    return {"cfg": {"klass": "marathon"}, "pool": pool, "ops": opl}
+
+
 def gen(rng, tier, ctx):
+    if rng.random() < 0.012:
+        return _gen_marathon(rng)
     klass = rng.choices(["plain", "faulty", "collision"], [0.45, 0.5, 0.05])[0]
     n = rng.randint(2, 7)
     names = rng.sample(NAMES, n)
@@ -60,6 +71,15 @@ def gen(rng, tier, ctx):
             pool[dst] = {"name": pool[dst]["name"], "desc": enc(twin), "tag": pool[src]["tag"] + "+twin"}
         except Exception:
             pass
+    for pe in pool:
+        if rng.random() < 0.1:
+            # a description that already carries a pruning flag of its own (legal: it is a constructor
+            # argument); the batch runner decides the mode of each of its two solves all the same
+            d_ = dec(pe["desc"])
+            if isinstance(d_, dict):
+                d_["prune_states"] = rng.random() < 0.5
+                pe["desc"] = enc(d_)
+                pe["tag"] = pe["tag"] + "+own-flag"
     if klass == "collision":
         pool[1]["name"] = pool[0]["name"] + "_no_prune"
     else:
@@ -389,7 +409,7 @@ def _check_report(i_op, w, op, games, spec, ctx):
     """The CLI's observable output: the saved report must carry the same entries."""
     rel = "outputs/%s.txt" % op.get("stem", "in")
     try:
-        text = w.fs.read_bytes(rel).decode("utf-8")
+        text = w.fs.read_text(rel)
         blocks = report.parse(text)
     except Exception as e:  # noqa
         return viol("I12.1", i_op, "saved report %s unreadable: %s" % (rel, e), "report-unreadable")
